@@ -201,6 +201,28 @@ def body(chk):
     rng = chk.rng
     n_boxes = 12 if chk.tier == "quick" else 120
     cases = []
+    # the witnesses of the open findings, so that each is re-examined (and printed while it persists) in every run
+    from pyuncertainnumber import pba
+    chk.count("witness-O24", key="O24")
+    try:
+        w = pba.normal([4, 5], [1, 2])
+        a1, a2 = w.get_PI(0.1, "narrowest"), w.get_PI(0.5, "narrowest")
+        if float(a2.lo) > float(a1.lo) or float(a2.hi) < float(a1.hi):
+            chk.report("Pbox.get_PI:narrowest:monotone", f"narrowest PI is not monotone in the coverage level: 0.1 -> [{float(a1.lo)},{float(a1.hi)}], 0.5 -> [{float(a2.lo)},{float(a2.hi)}]",
+                       {"kind": "witness", "call": "pba.normal([4,5],[1,2]).get_PI(alpha, 'narrowest') for alpha in (0.1, 0.5)"})
+    except Exception as e:
+        chk.report("Pbox.get_PI:narrowest:monotone", f"narrowest PI is not monotone: raises {type(e).__name__}", {"kind": "witness"})
+    chk.count("witness-O25", key="O25")
+    try:
+        Staircase(np.concatenate([np.linspace(0, 1, 100), np.repeat(1.0, 100)]), np.linspace(1, 3, 200)).cdf(5.0)
+    except AssertionError:
+        chk.report("Pbox.cdf", "cdf(5.0) raises AssertionError for a p-box whose left bound is flat at the top", {"kind": "witness",
+                   "call": "Staircase(concatenate([linspace(0,1,100), repeat(1.,100)]), linspace(1,3,200)).cdf(5.0)"})
+    chk.count("witness-O27", key="O27")
+    try:
+        pba.normal([4, 5], 1).condensation(2)
+    except AssertionError as e:
+        chk.report("Pbox.cond", f"condensation(2) raises AssertionError: {str(e)[:60]}", {"kind": "witness", "call": "pba.normal([4,5],1).condensation(2)"})
     for b in range(n_boxes):
         kind = (pbx.KINDS + pbx.TOUCH)[b % (len(pbx.KINDS) + len(pbx.TOUCH))]
         X = pbx.gen_bounds(rng, 200, kind, dy=rng.random() < 0.5)
